@@ -111,13 +111,22 @@ def run_rounds(ctx, own, rounds, walks=None, report_all=False):
   other = collections.Counter()
   nontrivial = set()
   with tlc.Scratch('svc') as d:
-    with cf.ThreadPoolExecutor(max_workers=6) as ex:
-      futs = {r['name']: ex.submit(tlc_round, r['name'], r['consts'], d, r.get('expect', ())) for r in rounds}
-      results = {}
-      for r in rounds:
-        results[r['name']] = futs[r['name']].result()
-    for r in rounds:
-      res, recs, outcomes = results[r['name']]
+    # quick: all configurations are model-checked concurrently (they are small); thorough: a pipeline that holds at most
+    # two configurations' transitions in memory (the next one is model-checked while this one is replayed)
+    ex = cf.ThreadPoolExecutor(max_workers=6 if not ctx.thorough else 1)
+    futs = {}
+
+    def start(i):
+      if i < len(rounds) and i not in futs:
+        r0 = rounds[i]
+        futs[i] = ex.submit(tlc_round, r0['name'], r0['consts'], d, r0.get('expect', ()))
+    if not ctx.thorough:
+      for i0 in range(len(rounds)):
+        start(i0)
+    start(0)
+    for i_r, r in enumerate(rounds):
+      start(i_r + 1)
+      res, recs, outcomes = futs.pop(i_r).result()
       consts = r['consts']
       conf = speca.conf_of(consts)
       cov['states'] += res.distinct
@@ -147,6 +156,10 @@ def run_rounds(ctx, own, rounds, walks=None, report_all=False):
         if recs:
           ctx.sample({'config': r['name'], 'history': recs[min(len(recs) - 1, 1 + (ctx.seed * 7919) % len(recs))]['hist']})
       cov['configs'].append(entry)
+      del recs
+      import gc
+      gc.collect()
+    ex.shutdown(wait=True)
     # ---- direction 1: recorded random walks validated by the trace spec
     for wk in walks or []:
       conf = wk['conf']
